@@ -30,6 +30,7 @@ type rmodel struct {
 	open     bool
 	pending  []ref.Msg // requests received and not yet resolved by us
 	unchoked bool
+	pre      bool // connected while the torrent's metadata was still incomplete
 }
 
 type step struct {
@@ -52,7 +53,7 @@ func (s step) String() string {
 
 var stepKinds = []string{"connect", "bitfield", "have", "haveall", "havenone", "donthave", "unchoke", "choke",
 	"answer", "answer", "answer", "answer-short", "answer-empty", "answer-long", "answer-misplaced", "answer-unrequested",
-	"reject", "sleep", "sleep", "close", "want", "want", "unwant", "evict", "close+tick", "connect+close", "adv-burst", "adv-burst", "busy-burst"}
+	"reject", "sleep", "sleep", "close", "want", "want", "unwant", "evict", "close+tick", "connect+close", "adv-burst", "adv-burst", "busy-burst", "metadata", "metadata"}
 
 type world struct {
 	x       *sim.Tor
@@ -61,6 +62,7 @@ type world struct {
 	hist    []string
 	wanted  map[int][]int8
 	answered int
+	magnet  bool
 }
 
 func (w *world) lab(s string) { w.labels[s] = true }
@@ -95,6 +97,19 @@ func (w *world) collect() string {
 // check compares the torrent's bookkeeping with what peers hold, at quiescence.
 func (w *world) check(when string) string {
 	t := w.x.T
+	if !t.InfoComplete() {
+		// a magnet start: nothing is countable until the piece count is known
+		return ""
+	}
+	skipModel := false
+	for _, m := range w.rs {
+		if m.r != nil && m.open && m.pre {
+			// what have-all / bitfield / don't-have mean before the piece count is
+			// known is the peer handler's business; for such a peer only the
+			// torrent's agreement with the peer's own bitmap is checked
+			skipModel = true
+		}
+	}
 	avail := tor.VerifAvailable(t)
 	infl := tor.VerifInFlight(t)
 	peers := tor.VerifPeers(t)
@@ -129,7 +144,7 @@ func (w *world) check(when string) string {
 		}
 	}
 	ctx := func() string { return fmt.Sprintf("\n%s; history: %v", when, w.hist) }
-	if live != len(peers) {
+	if live != len(peers) && !skipModel {
 		return fmt.Sprintf("%d remotes are connected, the torrent lists %d peers%s", live, len(peers), ctx())
 	}
 	for i := 0; i < w.x.N; i++ {
@@ -140,7 +155,7 @@ func (w *world) check(when string) string {
 		if got != wantAvail[i] {
 			return fmt.Sprintf("piece %d: availability %d, but %d connected peers have it in their bitmap%s", i, got, wantAvail[i], ctx())
 		}
-		if got != modelAvail[i] {
+		if got != modelAvail[i] && !skipModel {
 			return fmt.Sprintf("piece %d: availability %d, but %d connected remotes currently advertise it%s", i, got, modelAvail[i], ctx())
 		}
 	}
@@ -158,14 +173,27 @@ func (w *world) check(when string) string {
 	return ""
 }
 
+// startAsMagnet: the torrent of the next case is added by info-hash; some
+// peer delivers the metadata at a "metadata" step.
+var startAsMagnet bool
+
 func run(rt *rapid.T, steps []step, g sim.Geometry) (fail string, w *world) {
 	config.SetIdleRate(0)
 	defer config.SetIdleRate(64 * 1024)
-	x, err := sim.Build(g, "")
+	var x *sim.Tor
+	var err error
+	if startAsMagnet {
+		x, err = sim.BuildMagnet(g, "")
+	} else {
+		x, err = sim.Build(g, "")
+	}
 	if err != nil {
 		return "build: " + err.Error(), nil
 	}
-	w = &world{x: x, labels: map[string]bool{}, wanted: map[int][]int8{}}
+	w = &world{x: x, labels: map[string]bool{}, wanted: map[int][]int8{}, magnet: startAsMagnet}
+	if startAsMagnet {
+		w.lab("magnet-start")
+	}
 	ctx, cancel := context.WithCancel(context.Background())
 	defer cancel()
 	if err := x.Start(ctx); err != nil {
@@ -196,7 +224,31 @@ func run(rt *rapid.T, steps []step, g sim.Geometry) (fail string, w *world) {
 				v := []uint32{1, 2, 5, 250}[s.A%4]
 				rq = &v
 			}
-			r.SendExt(nil, rq, nil, "")
+			var msize *uint32
+			if w.magnet {
+				v := uint32(len(x.Info))
+				msize = &v
+				m.pre = !t.InfoComplete()
+			}
+			r.SendExt(nil, rq, msize, "")
+		case "metadata":
+			// the connected peer delivers the info dictionary
+			if !w.magnet || t.InfoComplete() || !connected {
+				continue
+			}
+			total := uint32(len(x.Info))
+			for b := 0; b*16384 < len(x.Info); b++ {
+				m.r.Send(ref.Msg{Kind: ref.KExtended, Sub: 2, X: ref.XMetadata, MetaType: 1, MetaPiece: uint32(b), MetaTotal: &total, Data: x.Info[b*16384 : min((b+1)*16384, len(x.Info))]})
+			}
+			sim.Settle()
+			if t.InfoComplete() {
+				w.lab("metadata-completed-with-peers-connected")
+				for _, mm := range w.rs {
+					if mm.r != nil && mm.open && (mm.haveAll || len(mm.have) > 0) {
+						w.lab("metadata-completed-with-advertising-peers")
+					}
+				}
+			}
 		case "connect+close":
 			// a remote that goes away while storrent is still writing its first messages
 			if m.r != nil {
@@ -561,7 +613,9 @@ func TestC09Conservation(t *testing.T) {
 		steps := genSteps(rt)
 		var fail string
 		var w *world
+		startAsMagnet = rapid.IntRange(0, 3).Draw(rt, "magnet") == 0
 		leak := sim.Bubble(t, func() { fail, w = run(rt, steps, g) })
+		startAsMagnet = false
 		if fail != "" {
 			rt.Fatalf("%s", fail)
 		}
